@@ -52,6 +52,7 @@ def _formula_sets(tier):
             [(b, c, a) for b in F.ARITH2 + F.ARITHF2 for a in d1 for c in leaves]
     ar = [('pred', '>=', t, F.C0) for t in terms] + [('pred', c, ('neg', F.X), ('ln', F.Y)) for c in ('<=', '==', '!==', '<', '>')]
     sets.append(('Arith', ar, (-1.0, 0.5, 2.0, 4.0), 2))
+    sets.append(('Patterns', F.patterns(), F.V3 if not quick else F.V2, 3))
     # S5: temporal operators directly over arithmetic terms and bare variables, three variables (one unused)
     sets.append(('Unused', [('once', (0, 1), ('-', F.X, F.Y)), ('always', (1, 2), ('neg', F.X)), ('until', None, F.X, ('abs', F.Y))],
                  F.V2, 3))
